@@ -130,6 +130,11 @@ fn is_tmp_editor_file(file_path: &Path) -> bool {
 
 pub struct TargetInvalidatedMessage;
 
+#[cfg(zinoma_verif)]
+pub fn verif_is_tmp_editor_file(file_path: &Path) -> bool {
+    is_tmp_editor_file(file_path)
+}
+
 #[cfg(test)]
 mod is_tmp_editor_file_tests {
     use super::is_tmp_editor_file;
